@@ -576,3 +576,61 @@ package proxy
 //@ func (*serverConnection).disconnect
 //@   props C16
 //@   at-call disconnect0 as d: assert held(s.mu) == wlocked && arg0 == s
+
+// ---- C19: the address sent in the backend handshake ----------------------------------------------------------------
+// Base host: for Forge clients the part of the virtual host before the first NUL (nothing else is stripped: dots and
+// TCPShield payloads stay); for every other client the virtual host unchanged.
+//@ func backendHandshakeBaseHost
+//@   props C19
+//@   at-call SplitN as cut: assert [only-the-first-nul-part] (connType == phase.LegacyForge || connType == phase.ModernForge) && streq(arg0, vHost) && streq(arg1, "\x00") && arg2 == 2
+//@   ensures [forge-first-part] called(cut) ==> len(res(cut)) >= 1 ==> streq(result, res(cut)[0])
+//@   ensures [others-unchanged] connType != phase.LegacyForge && connType != phase.ModernForge ==> streq(result, vHost) && !called(cut)
+
+// Legacy (BungeeCord) forwarding: backend address, NUL, player IP, NUL, undashed UUID, NUL, JSON property list.
+//@ func (*serverConnection).createLegacyForwardingAddress
+//@   props C19
+//@   maypanic
+//@   at-call Addr as ad
+//@   at-call String#1 as ads: assert arg0 == res(ad)
+//@   at-call WriteString#1 as p1: assert [backend-address-first] streq(arg1, res(ads))
+//@   at-call WriteString#2 as s1: assert called(p1) && streq(arg1, "\x00")
+//@   at-call Host as ip
+//@   at-call WriteString#3 as p2: assert [then-the-player-ip] called(s1) && streq(arg1, res(ip))
+//@   at-call WriteString#4 as s2: assert called(p2) && streq(arg1, "\x00")
+//@   at-call Undashed as id: assert arg0 == s.player.profile.ID
+//@   at-call WriteString#5 as p3: assert [then-the-undashed-uuid] called(s2) && streq(arg1, res(id))
+//@   at-call WriteString#6 as s3: assert called(p3) && streq(arg1, "\x00")
+//@   at-call Marshal as js
+//@   at-call WriteString#7 as p4: assert [then-the-json-property-list] called(s3) && called(js) && res(js, 1) == nil && streq(arg1, bytes(res(js, 0)))
+//@   at-call String#2 as out: assert called(p4)
+//@   ensures [all-four-parts] called(p1) && called(p2) && called(p3) && called(p4) && called(out) && streq(result, res(out))
+// BungeeGuard: the same, with the token property appended to the list.
+//@ func (*serverConnection).createBungeeGuardForwardingAddress
+//@   props C19
+//@   maypanic
+//@   at-call WriteString#1 as p1
+//@   at-call WriteString#2 as s1: assert called(p1) && streq(arg1, "\x00")
+//@   at-call Host as ip
+//@   at-call WriteString#3 as p2: assert called(s1) && streq(arg1, res(ip))
+//@   at-call WriteString#4 as s2: assert called(p2) && streq(arg1, "\x00")
+//@   at-call Undashed as id: assert arg0 == s.player.profile.ID
+//@   at-call WriteString#5 as p3: assert called(s2) && streq(arg1, res(id))
+//@   at-call WriteString#6 as s3: assert called(p3) && streq(arg1, "\x00")
+//@   at-call append#2 as tok: assert [token-property-appended] len(arg1) == 1 && streq(arg1[0].Name, "bungeeguard-token") && streq(arg1[0].Value, secret)
+//@   at-call Marshal as js: assert called(tok)
+//@   at-call WriteString#7 as p4: assert called(s3) && called(js) && res(js, 1) == nil && streq(arg1, bytes(res(js, 0)))
+//@   ensures [all-four-parts-with-the-token] called(p1) && called(p2) && called(p3) && called(tok) && called(p4)
+
+// Which address: with a custom handshake addresser the hook decides; otherwise legacy / BungeeGuard forwarding replace
+// the host by their address and nothing is appended to it; otherwise the virtual host goes through the backend
+// addresser hook (fed the base host) and gets the Forge suffix appended to it - never replacing it.
+//@ func (*serverConnection).handshakeAddr
+//@   props C19
+//@   at-call createLegacyForwardingAddress as leg
+//@   at-call createBungeeGuardForwardingAddress as bg
+//@   at-call BackendHandshakeAddr as hook: assert [hook-not-used-with-forwarding] !called(leg) && !called(bg)
+//@   at-call ModernToken as mt: assert !called(leg) && !called(bg)
+//@   at-call backendHandshakeBaseHost#2 as base: assert !called(leg) && !called(bg) && arg1 == phase.ModernForge
+//@   ensures [forwarding-address-is-sent-as-is] called(leg) ==> result.1 == nil && streq(result.0, res(leg))
+//@   ensures [bungeeguard-address-is-sent-as-is] called(bg) ==> result.1 == nil && streq(result.0, res(bg))
+//@   ensures [modern-forge-appends-the-token-to-the-base-host] called(mt) ==> called(base) && streq(result.0, res(base) + res(mt))
